@@ -328,7 +328,7 @@ def run(rep, tier, seed):
     # Trace_Alias takes one verdict step per trace
     rej = {x[0] for x in rejects}
     if not probes or any(p["id"] not in rej for p in probes):
-        raise core.MachineryError("P accepted corrupted traces")
+        core.probe_fail(rejects, "P accepted corrupted traces")
     rep.extra["probes_rejected"] = len(probes)
     rep.traces = len(traces)
     rep.evaluations = sum(len(t["ev"]) for t in traces)
